@@ -17,7 +17,7 @@ use std::panic::{catch_unwind, AssertUnwindSafe};
 // canonical printing of record data
 // ---------------------------------------------------------------------------------------------
 
-fn nhex(n: &Name) -> String {
+pub(super) fn nhex(n: &Name) -> String {
     to_hex(n.as_str().as_bytes())
 }
 
@@ -96,7 +96,7 @@ impl Show for Txt {
     }
 }
 
-fn show_record_data(d: &RecordData) -> String {
+pub(super) fn show_record_data(d: &RecordData) -> String {
     match d {
         RecordData::A(x) => x.show(),
         RecordData::Ns(x) => x.show(),
@@ -119,6 +119,7 @@ fn show_record_data(d: &RecordData) -> String {
 }
 
 /// run `$body` with `$D` bound to the record-data type named by `$ty`
+#[macro_export]
 macro_rules! with_rtype {
     ($ty:expr, $D:ident, $body:expr, $else:expr) => {
         match $ty {
@@ -179,14 +180,14 @@ pub fn eval_rdata(toks: &[&str]) -> String {
 // reader histories
 // ---------------------------------------------------------------------------------------------
 
-fn show_name_ref(n: &NameRef) -> String {
+pub(super) fn show_name_ref(n: &NameRef) -> String {
     match Name::try_from(n) {
         Ok(n) => nhex(&n),
         Err(e) => format!("!{}", show_err(&e)),
     }
 }
 
-fn show_marker(m: &RecordMarker) -> String {
+pub(super) fn show_marker(m: &RecordMarker) -> String {
     // RecordOffset fields are crate-private; Debug prints them
     let dbg = format!("{:?}", m.offset());
     let nums: Vec<usize> = dbg
@@ -206,14 +207,14 @@ fn show_marker(m: &RecordMarker) -> String {
     )
 }
 
-fn show_e<T>(r: &rsdns::Result<T>, f: impl Fn(&T) -> String) -> String {
+pub(super) fn show_e<T>(r: &rsdns::Result<T>, f: impl Fn(&T) -> String) -> String {
     match r {
         Ok(v) => f(v),
         Err(e) => format!("E:{}", show_err(e)),
     }
 }
 
-fn section_of(s: &str) -> Option<RecordsSection> {
+pub(super) fn section_of(s: &str) -> Option<RecordsSection> {
     match s {
         "0" => Some(RecordsSection::Answer),
         "1" => Some(RecordsSection::Authority),
@@ -258,7 +259,7 @@ pub fn eval_xmark(toks: &[&str]) -> String {
     run_history(&b, &toks[3..], markers, toks.len() % 2 == 0)
 }
 
-fn run_history(bytes: &[u8], ops: &[&str], initial_markers: Vec<RecordMarker>, tail: bool) -> String {
+pub(super) fn run_history(bytes: &[u8], ops: &[&str], initial_markers: Vec<RecordMarker>, tail: bool) -> String {
     let g = Guarded::new(bytes, tail);
     let buf = g.as_slice();
     let mut mr = match MessageReader::new(buf) {
@@ -922,7 +923,7 @@ fn typed_at(mr: &MessageReader, m: &RecordMarker) -> String {
     }
 }
 
-fn typed_seq(mr: &mut MessageReader, m: &RecordMarker) -> String {
+pub(super) fn typed_seq(mr: &mut MessageReader, m: &RecordMarker) -> String {
     let t = m.rtype().value();
     let name = type_name(t);
     if ALL_TYPES.contains(&t) {
@@ -1125,7 +1126,7 @@ pub fn gen_rdata(r: &mut Rng, _i: u64) -> String {
     format!("rdata {} {} {} {}", type_name(ask), start, rdlen, to_hex(&buf))
 }
 
-fn gen_message_bytes(r: &mut Rng) -> (Vec<u8>, GMsg, Layout) {
+pub(super) fn gen_message_bytes(r: &mut Rng) -> (Vec<u8>, GMsg, Layout) {
     let pool = r.chance(2, 3);
     let mut m = gen_msg(r, pool);
     // RDLENGTH and count perturbations
@@ -1323,12 +1324,12 @@ pub fn gen_iter(r: &mut Rng, _i: u64) -> String {
     format!("iter {}", to_hex(&buf))
 }
 
-fn gname_hex(n: &GName) -> String {
+pub(super) fn gname_hex(n: &GName) -> String {
     to_hex(&n.text())
 }
 
 /// canonical text of generator data — written from the semantic value, never from decoded bytes
-fn gdata_show(t: u16, d: &GData) -> Option<String> {
+pub(super) fn gdata_show(t: u16, d: &GData) -> Option<String> {
     Some(match d {
         GData::A(v) => format!("A:{}", v),
         GData::Aaaa(v) => format!("AAAA:{}", v),
